@@ -12,7 +12,7 @@ Variable s : sdk.
 
 (* creating a table that exists fails with ResourceInUse and changes nothing *)
 Theorem create_existing_in_use c ct :
-  v1_name_ok s (ct_table ct) = true -> mem (ct_table ct) (c_tables c) = true ->
+  ct_names_ok s ct = true -> mem (ct_table ct) (c_tables c) = true ->
   create_table s c ct = (c, err_obs InUse).
 Proof. intros Hn Hm. unfold create_table. now rewrite Hn, Hm. Qed.
 
@@ -22,7 +22,7 @@ Theorem create_starts_empty c ct c' d :
   exists t, lookup (ct_table ct) (c_tables c') = Some t /\ t_data t = [] /\ t_sorted t = [] /\ d = describe t /\ d_count d = 0.
 Proof.
   unfold create_table.
-  destruct (negb (v1_name_ok s (ct_table ct))); [discriminate|].
+  destruct (negb (ct_names_ok s ct)); [discriminate|].
   destruct (mem (ct_table ct) (c_tables c)); [discriminate|].
   destruct (check_schema _ _ _) as [[h r]|]; [|discriminate].
   destruct (negb (ct_pay_per_request ct) && negb (ct_throughput ct)); [discriminate|].
